@@ -223,6 +223,31 @@ func genAddFlags(r *h.Rng, nobj int) addFlags {
 	return f
 }
 
+// directedAdds: one add per way its flags can be wrong (and their nearest valid neighbours), in a
+// fixed order; the first two histories of every run go through them.
+func directedAdds(r *h.Rng) []addFlags {
+	fp := strings.ToUpper(hex.EncodeToString(h.GenContent(r, 20)))
+	u := func(v uint32) *uint32 { return &v }
+	i := func(v int) *int { return &v }
+	st := func(v string) *string { return &v }
+	sig := func(hash int, ent string) addFlags { return addFlags{DataType: 5, SignHash: hash, SignEntity: ent} }
+	part := func(pt, fs, arch int) addFlags {
+		return addFlags{DataType: 4, PartType: pt, PartFS: fs, PartArch: arch}
+	}
+	return []addFlags{
+		sig(1, fp), sig(0, fp), sig(6, fp), sig(5, fp), sig(2, fp[:38]), sig(2, fp+"AB"), sig(2, "zz"+fp[2:]),
+		sig(2, fp[:38]+"zz"), sig(2, fp+"zz"), sig(2, fp+"A"), sig(2, fp[:39]), sig(3, ""), sig(3, strings.ToLower(fp)),
+		{DataType: 9, SBOM: "spdx-json"}, {DataType: 9, SBOM: ""}, {DataType: 9, SBOM: "nonsense"}, {DataType: 9, SBOM: "github"}, {DataType: 9, SBOM: "SPDX-JSON"},
+		{DataType: 7, SBOM: "nonsense"}, {DataType: 7, SignHash: 9, SignEntity: "zz"},
+		part(2, 1, 2), part(2, 1, 4), part(1, 2, 2), part(0, 1, 2), part(5, 1, 2), part(1, 0, 2), part(1, 7, 2), part(1, 1, 0), part(1, 1, 13), part(3, 5, 12), part(4, 6, 1),
+		{DataType: 0}, {DataType: 12}, {DataType: -1}, {DataType: 11}, {DataType: 10},
+		{DataType: 7, Group: 0x0fffffff}, {DataType: 7, Group: 0x10000000}, {DataType: 7, Group: 0xffffffff},
+		{DataType: 7, Link: u(0)}, {DataType: 7, Link: u(1)}, {DataType: 7, Link: u(0xffffffff)}, {DataType: 7, Link: u(0x10000001)},
+		{DataType: 7, Align: i(0)}, {DataType: 7, Align: i(-1)}, {DataType: 7, Align: i(3)}, {DataType: 4, PartType: 1, PartFS: 1, PartArch: 2, Align: i(0)},
+		{DataType: 7, Name: st("")}, {DataType: 7, Name: st(strings.Repeat("n", 128))}, {DataType: 7, Name: st(strings.Repeat("n", 129))},
+	}
+}
+
 func genContent(r *h.Rng, big bool) []byte {
 	n := h.Pick(r, []int{0, 0, 1, 5, 100, 511, 512, 4096, 5000})
 	if big {
@@ -235,6 +260,17 @@ func genContent(r *h.Rng, big bool) []byte {
 		}
 	}
 	return b
+}
+
+// firstDiffLine returns the first line of a that differs from the same line of b.
+func firstDiffLine(a, b string) string {
+	al, bl := strings.Split(a, "\n"), strings.Split(b, "\n")
+	for i := range al {
+		if i >= len(bl) || al[i] != bl[i] {
+			return al[i]
+		}
+	}
+	return "(nothing)"
 }
 
 func runTool(bin string, dir string, args ...string) (bool, []byte, string, int64, int64) {
@@ -289,6 +325,59 @@ func runSiftool(seed uint64, n, shards int, out, tmp string, maxops int, thoroug
 	bin := buildSiftool(tmp)
 	root := h.NewRng(seed)
 	var cases [][]tStep
+	// reports on images the commands themselves cannot make: library-signed images (signature
+	// objects with and without a recorded fingerprint, groups, links) and the shipped corpus
+	{
+		k := h.LoadKeys("/repo")
+		r := root.Fork()
+		imgs := [][]byte{
+			signedBase(k, r, h.BaseSpec{Scheme: "dsse", DSSEKeys: []string{"ed25519"}, TwoGroups: true}),
+			signedBase(k, r, h.BaseSpec{Scheme: "pgp", Entity: 0, TwoGroups: true}),
+		}
+		names := []string{"dsse-signed two groups", "pgp-signed two groups"}
+		cn, cimg := h.CorpusImages("/repo")
+		for i := range cn {
+			if len(cimg[i]) < 200000 && len(imgs) < 8 {
+				imgs, names = append(imgs, cimg[i]), append(names, "corpus "+cn[i])
+			}
+		}
+		dir := filepath.Join(tmp, "reports")
+		_ = os.MkdirAll(dir, 0o755)
+		for i, img := range imgs {
+			path := filepath.Join(dir, fmt.Sprintf("r%d.sif", i))
+			_ = os.WriteFile(path, img, 0o644)
+			si, err := h.DecodeImage(img)
+			if err != nil {
+				continue
+			}
+			cmds := [][]string{{"header"}, {"list"}}
+			for _, d := range si.Descs {
+				if d.Used {
+					cmds = append(cmds, []string{"info", fmt.Sprint(d.ID)})
+				}
+			}
+			for _, c := range cmds {
+				ok, so, se, _, _ := runTool(bin, dir, append(c, path)...)
+				s.OracleRuns["reports-show-the-true-values"]++
+				id := uint64(0)
+				if len(c) > 1 {
+					id, _ = strconv.ParseUint(c[1], 10, 32)
+				}
+				want, applies := expectedReport(c[0], img, uint32(id))
+				switch {
+				case !applies:
+				case !ok:
+					s.Oracle = append(s.Oracle, h.Finding{Property: "C15", Case: -1 - i, What: fmt.Sprintf("%v failed on a loadable image: %s", c, se), Input: names[i]})
+				case normReport(string(so)) != want:
+					s.Oracle = append(s.Oracle, h.Finding{Property: "C15", Case: -1 - i,
+						What: fmt.Sprintf("%v report differs from the true values: printed %q, expected %q", c, firstDiffLine(normReport(string(so)), want), firstDiffLine(want, normReport(string(so)))), Input: names[i]})
+				}
+				if after, _ := os.ReadFile(path); !bytes.Equal(after, img) {
+					s.Oracle = append(s.Oracle, h.Finding{Property: "C15", Case: -1 - i, What: fmt.Sprintf("%v changed the file", c), Input: names[i]})
+				}
+			}
+		}
+	}
 	for ci := 0; ci < n; ci++ {
 		r := root.Fork()
 		dir := filepath.Join(tmp, fmt.Sprintf("h%d", ci))
@@ -303,12 +392,35 @@ func runSiftool(seed uint64, n, shards int, out, tmp string, maxops int, thoroug
 		nobj := 0
 		var usedIDs, partIDs []uint32
 		nsteps := 4 + r.Intn(maxops)
+		var directed []addFlags
+		if ci < 2 {
+			all := directedAdds(r)
+			directed = all[ci*len(all)/2 : (ci+1)*len(all)/2]
+			nsteps = 1 + len(directed)
+		}
 		hasBig := false
-		for k := 0; k < nsteps; k++ {
+		// epilogue: the three reports, `info` for every object the image then holds
+		var epilogue []tCmd
+		for k := 0; ; k++ {
+			if k == nsteps {
+				epilogue = append(epilogue, tCmd{Kind: "header"}, tCmd{Kind: "list"})
+				for _, id := range usedIDs {
+					if len(epilogue) < 10 {
+						epilogue = append(epilogue, tCmd{Kind: "info", ID: fmt.Sprint(id)})
+					}
+				}
+			}
+			if k >= nsteps && len(epilogue) == 0 {
+				break
+			}
 			var c tCmd
 			switch {
+			case k >= nsteps:
+				c, epilogue = epilogue[0], epilogue[1:]
 			case k == 0:
 				c = tCmd{Kind: "new"}
+			case directed != nil:
+				c = tCmd{Kind: "add", Flags: directed[k-1], Content: genContent(r, false)}
 			default:
 				switch x := r.Intn(20); {
 				case x < 9:
